@@ -157,7 +157,7 @@ def run_dtier(pid, cfg, tier, seed, out, ev):
     ev["assumptions"].extend(sorted(assumptions))
     if dropped:
         ev["assumptions"].append("extraction drops (no-ops): " + "; ".join(sorted(dropped)))
-    if n_obl + len(known_list) == 0:
+    if n_obl + len(known_list) == 0 and all(r["status"] == "ok" for r in reports):
         out.errors.append("vacuity guard: zero obligations generated")
 
 
